@@ -187,7 +187,7 @@ def component(draw, kind, uid):
         if kind != "VJOURNAL" and draw(st.integers(0, 4)) == 0 and any(p[0] == "DTSTART" for p in props):
             props.append(("RRULE", [], draw(st.sampled_from(["FREQ=DAILY;COUNT=3", "FREQ=WEEKLY;BYDAY=MO,TU", "FREQ=MONTHLY;INTERVAL=2", "FREQ=YEARLY;UNTIL=20251231T000000Z"]))))
         if draw(st.integers(0, 5)) == 0:
-            props.append(("SEQUENCE", [], str(draw(st.integers(0, 9)))))
+            props.append(("SEQUENCE", [], str(draw(st.sampled_from([0, 0, 0, 1, 2, 5, 9])))))
         if draw(st.integers(0, 5)) == 0:
             props.append(("CLASS", [], draw(st.sampled_from(["PUBLIC", "PRIVATE", "CONFIDENTIAL"]))))
     if draw(st.integers(0, 3)) == 0:
@@ -321,6 +321,12 @@ def vcard(draw, uid=None, style=None):
         props.append(("UID", [], uid))
     for _ in range(draw(st.integers(0, 3))):
         t = draw(st.sampled_from(["HOME", "WORK", "home", None]))
+        if t and draw(st.integers(0, 3)) == 0:
+            # a parameter with several values: TYPE=HOME,INTERNET or TYPE=HOME;TYPE=pref
+            extra = draw(st.sampled_from(["INTERNET", "pref", "VOICE"]))
+            params = [("TYPE", [t, extra])] if draw(st.booleans()) else [("TYPE", [t]), ("TYPE", [extra])]
+            props.append(("EMAIL", params, draw(st.sampled_from(["john@example.com", "JANE@Example.COM", "zoë@example.org", "bob@work.example"]))))
+            continue
         props.append(("EMAIL", [("TYPE", [t])] if t else [], draw(st.sampled_from(["john@example.com", "JANE@Example.COM", "zoë@example.org", "bob@work.example"]))))
     for _ in range(draw(st.integers(0, 2))):
         t = draw(st.sampled_from(["CELL", "VOICE", None]))
